@@ -947,7 +947,9 @@ def rooted_trees(n):
 TOPOS = [p for n in (1, 2, 3, 4) for p in rooted_trees(n)]  # 1 + 1 + 3 + 16 topologies
 BIGGER = [[-1, 0, 1, 1, 2, 3], [-1, 0, 1, 2, 2, 3, 4], [-1, 0, 0, 1, 1, 2], [-1, 0, 1, 1, 1, 2]]  # stems / pass-through nodes below a furcation
 INLINE = ["swc_utils/base.py:traverse", "swc_utils/base.py:_traverse_dfs", ":Tree.traverse", ":Tree.Node.traverse",
-          ":Path.length", ":Path.tortuosity", ":Path.straight_line_distance", ":Tree.Node.radial_distance", ":Tree.length"]
+          ":Path.length", ":Path.tortuosity", ":Path.straight_line_distance", ":Tree.Node.radial_distance", ":Tree.length",
+          ":to_sub_topology", ":propagate_removal", ":to_subtree_impl", ":get_subtree_impl", ":to_subtree", ":Tree.Node.parent", ":Tree.Node.children",
+          ":Tree.get_tips", ":Tree.get_furcations", ":Tree.get_branches", ":Tree.Node.branch", ":Node.is_furcation", ":Node.is_tip", ":Node.distance"]
 
 
 def pname(pids):
@@ -1003,15 +1005,17 @@ def register_topology_features(R, H):
     as_arrays = H["as_arrays"]
 
     class Geo:
-        """distances of one concrete-shape tree inside one clause (each dist term is built once)"""
+        """distances of one tree inside one clause (each dist term is built once); node positions concrete or symbolic"""
 
         def __init__(self, E, t):
-            self.E, self.ta, self.memo = E, as_arrays(t), {}
+            self.E, self.memo = E, {}
+            self.ta = as_arrays(t) if isinstance(col(t, "pid"), NArr) else t
 
         def d(self, a, b):
-            k = (min(a, b), max(a, b))
+            za, zb = to_z3(a, "int"), to_z3(b, "int")
+            k = tuple(sorted((za.sexpr(), zb.sexpr())))
             if k not in self.memo:
-                self.memo[k] = dist(self.E, self.ta, z3.IntVal(k[0]), z3.IntVal(k[1]))
+                self.memo[k] = dist(self.E, self.ta, za, zb)
             return self.memo[k]
 
         def chain_len(self, nodes):
@@ -1022,35 +1026,64 @@ def register_topology_features(R, H):
             ln, c = self.chain_len(nodes), self.d(nodes[-1], nodes[0])
             return z3.If(ln == 0, r == 1, r * ln == c)
 
-    def node_lists(objs, t, cls):
+    from pyvc.values import Obj as Obj_, PList as PList_
+
+    def node_lists(objs, t, cls, concrete=True):
         """the node lists of a list of Path / Branch views on tree t (None if it is anything else)"""
         if not (isinstance(objs, PList_) and objs.items is not None):
             return None
         out = []
         for b in objs.items:
             idx = b.fields.get("idx") if isinstance(b, Obj_) else None
-            if not (isinstance(b, Obj_) and b.cls is cls and b.fields.get("attach") is t and isinstance(idx, NArr) and idx.ndim == 1 and all(isinstance(a, int) for a in idx.items)):
+            if not (isinstance(b, Obj_) and b.cls is cls and b.fields.get("attach") is t and isinstance(idx, NArr) and idx.ndim == 1):
+                return None
+            if concrete and not all(isinstance(a, int) for a in idx.items):
                 return None
             out.append(list(idx.items))
         return out
 
-    from pyvc.values import Obj as Obj_, PList as PList_
+    # ------------------------------------------------ BranchFeatures / PathFeatures
+    # The node lists are kept in a functools.cached_property (`_branches` / `_paths`).  What the contract states about
+    # the cache: on a COLD cache the call fills it with exactly the textbook chains of the tree as it is now; on a WARM
+    # cache the list is used as it is and never refreshed (so the TOPOLOGY may be stale if the tree's parent column was
+    # edited after the first call -- nothing in the class invalidates it), while the COORDINATES are always read through
+    # the tree (the cached entries are views: attach + node ids), so the values follow coordinate edits.
+    def is_cold(o, field):
+        return o["self"].fields.get(field) is None
 
-    # ------------------------------------------------ BranchFeatures / PathFeatures on a cold cache
     def listed(field, cls, want):
-        """the cached list (filled by this call) holds exactly the textbook chains of the tree, each once"""
+        """cold: the cache (filled by this call) holds exactly the textbook chains of the tree, each once"""
         def f(E, v, o):
+            if not is_cold(o, field):
+                return True
             t = o["self"].fields["tree"]
             got = node_lists(v["self"].fields.get(field), v["self"].fields["tree"], cls)
             return got is not None and sorted(got) == sorted(want(Topo(pids_of(t))))
 
         return f
 
+    def kept(field):
+        """warm: the cached list object and its entries are exactly what they were on entry"""
+        def f(E, v, o):
+            if is_cold(o, field):
+                return True
+            a, b = v["self"].fields.get(field), o["self"].fields[field]
+            if not (isinstance(a, PList_) and a.uid == b.uid and a.items is not None and len(a.items) == len(b.items)):
+                return False
+            ok = True
+            for x, y in zip(a.items, b.items):
+                ix, iy = x.fields["idx"], y.fields["idx"]
+                ok = ok and x.uid == y.uid and x.fields["attach"].uid == y.fields["attach"].uid and ix.shape == iy.shape
+                ok = ok and all(z3.is_true(z3.simplify(to_z3(p, "int") == to_z3(q, "int"))) for p, q in zip(ix.items, iy.items))
+            return ok
+
+        return f
+
     def per_chain(field, cls, what):
-        """result[k] is the length / tortuosity of the k-th listed chain, computed from the tree's coordinates"""
+        """result[k] is the length / tortuosity of the k-th listed chain, computed from the tree's CURRENT coordinates"""
         def f(E, v, o):
             t = v["self"].fields["tree"]
-            got, res = node_lists(v["self"].fields.get(field), t, cls), v["result"]
+            got, res = node_lists(v["self"].fields.get(field), t, cls, concrete=False), v["result"]
             if got is None or not (isinstance(res, NArr) and res.shape == (len(got),)):
                 return False
             g = Geo(E, t)
@@ -1060,9 +1093,11 @@ def register_topology_features(R, H):
 
         return f
 
-    def multiset(what, want):
-        """THE top-level statement: the returned values are, as a multiset, the values of the textbook chains"""
+    def multiset(what, want, field):
+        """THE top-level statement (cold cache): the returned values are, as a multiset, the values of the textbook chains"""
         def f(E, v, o):
+            if not is_cold(o, field):
+                return True
             t, res = o["self"].fields["tree"], v["result"]
             chains = want(Topo(pids_of(t)))
             if not (isinstance(res, NArr) and res.shape == (len(chains),)):
@@ -1074,24 +1109,114 @@ def register_topology_features(R, H):
 
         return f
 
-    def cold(cls):
-        return {pname(p): (lambda S, _p=p: dict(self=S.obj(cls, tree=topo_tree(S, _p)))) for p in TOPOS + BIGGER}
+    def count_post(want, field):
+        def f(E, v, o):
+            if is_cold(o, field):
+                return v["result"] == len(want(Topo(pids_of(o["self"].fields["tree"]))))
+            return v["result"] == len(o["self"].fields[field].items)
 
-    SIZE_NOTE = ("topology fixed per variant: every labelled rooted tree of 1-4 nodes (21 parent vectors) and 4 shapes of 6-7 nodes; "
-                 "type, coordinates and radii symbolic; the traversal (Tree.traverse / swc_utils.traverse) is executed from its real source")
+        return f
+
+    def variants_of(cls, field, ccls):
+        out = {"cold-cache," + pname(p): (lambda S, _p=p: dict(self=S.obj(cls, tree=topo_tree(S, _p)))) for p in TOPOS + BIGGER}
+
+        def warm(S):
+            t = sym_tree(S, "t")
+            return dict(self=S.obj(cls, **{"tree": t, field: PList_([path_obj(S, t, 2, cls=ccls), path_obj(S, t, 3, cls=ccls)])}))
+
+        out["warm-cache,two-listed-chains-of-2-and-3-nodes"] = warm
+        out["warm-cache,empty-list"] = lambda S: dict(self=S.obj(cls, **{"tree": sym_tree(S, "t"), field: PList_([])}))
+        return out
+
+    SIZE_NOTE = ("cold cache: topology fixed per variant -- every labelled rooted tree of 1-4 nodes (21 parent vectors) and 4 shapes of 6-7 nodes; "
+                 "type, coordinates and radii symbolic; the traversal (Tree.traverse / swc_utils.traverse) is executed from its real source.  "
+                 "warm cache: a tree of symbolic size, the cached list holds two views of 2 and 3 arbitrary nodes (or is empty)")
     for cls, field, ccls, want, key in ((BranchFeatures, "_branches", Tree.Branch, Topo.branches, "branches"), (PathFeatures, "_paths", Tree.Path, Topo.paths, "paths")):
         nm = cls.__name__
-        R.add(f"{FEAT}:{nm}.get_length", prop="C10", variants=cold(cls), options=dict(inline_calls=INLINE),
-              ensures=[(f"multiset-of-the-lengths-of-the-textbook-{key}", multiset("length", want)),
-                       (f"cache-holds-exactly-the-textbook-{key}", listed(field, ccls, want)),
-                       ("value-k-is-the-sum-of-consecutive-node-distances-of-listed-chain-k", per_chain(field, ccls, "length"))],
+        common = [(f"cold-cache-is-filled-with-exactly-the-textbook-{key}", listed(field, ccls, want)),
+                  ("warm-cache-is-used-as-it-is-and-left-unchanged", kept(field))]
+        R.add(f"{FEAT}:{nm}.get_length", prop="C10", variants=variants_of(cls, field, ccls), options=dict(inline_calls=INLINE),
+              ensures=[(f"cold-cache:multiset-of-the-lengths-of-the-textbook-{key}", multiset("length", want, field)),
+                       ("value-k-is-the-sum-of-consecutive-node-distances-of-listed-chain-k", per_chain(field, ccls, "length"))] + common,
               notes=SIZE_NOTE)
-        R.add(f"{FEAT}:{nm}.get_tortuosity", prop="C10", variants=cold(cls), options=dict(inline_calls=INLINE),
-              ensures=[(f"multiset-of-the-tortuosities-of-the-textbook-{key}", multiset("tortuosity", want)),
-                       (f"cache-holds-exactly-the-textbook-{key}", listed(field, ccls, want)),
-                       ("value-k-is-chord-over-length-of-listed-chain-k-or-one-for-zero-length", per_chain(field, ccls, "tortuosity"))],
+        R.add(f"{FEAT}:{nm}.get_tortuosity", prop="C10", variants=variants_of(cls, field, ccls), options=dict(inline_calls=INLINE),
+              ensures=[(f"cold-cache:multiset-of-the-tortuosities-of-the-textbook-{key}", multiset("tortuosity", want, field)),
+                       ("value-k-is-chord-over-length-of-listed-chain-k-or-one-for-zero-length", per_chain(field, ccls, "tortuosity"))] + common,
               notes=SIZE_NOTE)
-        R.add(f"{FEAT}:{nm}.get_count", prop="C10", variants=cold(cls), options=dict(inline_calls=INLINE),
-              ensures=[(f"number-of-textbook-{key}", lambda E, v, o, _w=want: v["result"] == len(_w(Topo(pids_of(o["self"].fields["tree"]))))),
-                       (f"cache-holds-exactly-the-textbook-{key}", listed(field, ccls, want))],
+        R.add(f"{FEAT}:{nm}.get_count", prop="C10", variants=variants_of(cls, field, ccls), options=dict(inline_calls=INLINE),
+              ensures=[(f"number-of-textbook-{key}-on-a-cold-cache-else-of-listed-chains", count_post(want, field))] + common,
               notes=SIZE_NOTE)
+
+    # ------------------------------------------------ NodeFeatures.get_branch_order
+    from swcgeom.analysis.features import FurcationFeatures, NodeFeatures, TipFeatures
+
+    def bo_post(E, v, o):
+        t, res = o["self"].fields["tree"], v["result"]
+        want = sorted(Topo(pids_of(t)).critical_order().values())
+        return isinstance(res, NArr) and res.ndim == 1 and all(isinstance(x, int) for x in res.items) and sorted(res.items) == want
+
+    R.add(f"{FEAT}:NodeFeatures.get_branch_order", prop="C10",
+          variants={pname(p): (lambda S, _p=p: dict(self=S.obj(NodeFeatures, tree=topo_tree(S, _p)))) for p in TOPOS + BIGGER},
+          options=dict(inline_calls=INLINE),
+          ensures=[("multiset-of-the-number-of-branches-between-each-critical-node-and-the-root", bo_post)],
+          notes="one value per critical node (root, furcations, tips); topology fixed per variant (21 trees of 1-4 nodes, 4 shapes of 6-7 nodes); "
+                "BranchTree.from_tree, to_sub_topology and the traversal are executed from their real source")
+
+    # ------------------------------------------------ _SubsetNodesFeatures.get_radial_distance / from_tree
+    soma_typed = H["soma_typed"]
+
+    def subset_nodes(cls, tp):
+        return tp.furcations() if cls is FurcationFeatures else tp.tips()
+
+    def srd_setup(cls, pids, mask=None):
+        def f(S):
+            fields = dict(_features=S.obj(NodeFeatures, tree=topo_tree(S, pids)))
+            if mask is not None:
+                fields["nodes"] = NArr((len(mask),), list(mask), "bool")
+            return dict(self=S.obj(cls, **fields))
+
+        return f
+
+    def srd_post(E, v, o):
+        s = o["self"]
+        t, res = s.fields["_features"].fields["tree"], v["result"]
+        if "nodes" in s.fields:  # warm cache: the mask as it was cached
+            sel = [i for i, b in enumerate(s.fields["nodes"].items) if b]
+        else:
+            sel = subset_nodes(s.cls, Topo(pids_of(t)))
+        if not (isinstance(res, NArr) and res.shape == (len(sel),) and res.root().uid not in E.entry_uids):
+            return False
+        g = Geo(E, t)
+        return z3.And(*[to_z3(res.items[k], "real") == g.d(i, 0) for k, i in enumerate(sel)]) if sel else True
+
+    def mask_cached(E, v, o):
+        s = o["self"]
+        t, m = s.fields["_features"].fields["tree"], v["self"].fields.get("nodes")
+        if "nodes" in s.fields:
+            return isinstance(m, NArr) and m.uid == s.fields["nodes"].uid and list(m.items) == list(s.fields["nodes"].items)
+        sel = subset_nodes(s.cls, Topo(pids_of(t)))
+        return isinstance(m, NArr) and m.ndim == 1 and [E.truth(x) for x in m.items] == [i in sel for i in range(len(pids_of(t)))]
+
+    variants = {}
+    for cls, nm in ((FurcationFeatures, "furcations"), (TipFeatures, "tips")):
+        for p in TOPOS + BIGGER:
+            variants[f"{nm},cold-cache,{pname(p)}"] = srd_setup(cls, p)
+        variants[f"{nm},warm-cache,mask=1,0,1,pid=-1,0,1"] = srd_setup(cls, [-1, 0, 1], [True, False, True])
+    R.add(f"{FEAT}:_SubsetNodesFeatures.get_radial_distance", prop="C10", variants=variants, options=dict(inline_calls=INLINE),
+          raises={"ValueError": ("root-is-not-typed-soma", lambda E, v, o: z3.Not(soma_typed(v["self"].fields["_features"].fields["tree"])))},
+          ensures=[("distance-to-node-0-of-every-node-of-the-subset-in-node-order", srd_post),
+                   ("root-is-typed-soma", lambda E, v, o: soma_typed(o["self"].fields["_features"].fields["tree"])),
+                   ("cold-cache-is-filled-with-the-mask-of-the-subset-a-warm-one-is-kept", mask_cached)],
+          notes="furcation and tip subsets; topology fixed per variant (21 trees of 1-4 nodes, 4 shapes of 6-7 nodes), coordinates symbolic; the mask "
+                "`nodes` is a cached_property: a warm cache (one variant) is used as it is -- topology may be stale, coordinates are read from the tree")
+
+    def ft_post(E, v, o):
+        res = v["result"]
+        nf = res.fields.get("_features") if isinstance(res, Obj_) else None
+        return (isinstance(res, Obj_) and res.cls is o["cls"] and isinstance(nf, Obj_) and nf.cls is NodeFeatures and nf.fields.get("tree") is v["tree"]
+                and set(res.fields) == {"_features"} and set(nf.fields) == {"tree"} and res.uid not in E.entry_uids and nf.uid not in E.entry_uids)
+
+    R.add(f"{FEAT}:_SubsetNodesFeatures.from_tree", prop="C10",
+          variants={c.__name__: (lambda S, _c=c: dict(cls=_c, tree=sym_tree(S, "t"))) for c in (FurcationFeatures, TipFeatures)},
+          ensures=[("fresh-subset-object-of-the-class-over-fresh-node-features-of-that-very-tree-with-empty-caches", ft_post)],
+          notes="tree of symbolic size")
